@@ -318,4 +318,41 @@ Definition set_model (b : base) (is_list : bool) (chain : list tlevel) (st : opt
   | o => (o, st)
   end.
 
+(** ** Selection.Set(val.Value): the caller hands over an already typed value, so NewValue (and
+    with it toEnum / toBits membership) is not run; only the pre-constraints are.  Known finding 6:
+    a hand-built val.Enum / val.Bits that is not declared is stored. *)
+Definition check_scalar_typed (b : base) (ct : ctype) (s : sval) : chk :=
+  match b, s with
+  | BEnum _, SEnumName _ => Pass
+  | BEnum _, SEnumVal _ => Pass
+  | BBits _, SBits _ => Pass
+  | _, _ => check_scalar b ct s
+  end.
+Fixpoint check_all_typed (b : base) (ct : ctype) (l : list sval) : chk :=
+  match l with
+  | [] => Pass
+  | s :: tl => match check_scalar_typed b ct s with Pass => check_all_typed b ct tl | other => other end
+  end.
+Definition check_value_typed (b : base) (is_list : bool) (ct : ctype) (v : value) : chk :=
+  match is_list, v with
+  | false, VOne s => check_scalar_typed b ct s
+  | true, VMany l => check_all_typed b ct l
+  | _, _ => Fail
+  end.
+Definition accept_typed (b : base) (is_list : bool) (chain : list tlevel) (v : value) : outcome :=
+  match parse_chain chain with
+  | None => LoadErr
+  | Some pc => match check_value_typed b is_list (compile pc) v with
+               | Pass => Accepted
+               | Fail => Rejected
+               | ChkPanic => Panicked
+               end
+  end.
+Definition set_typed_model (b : base) (is_list : bool) (chain : list tlevel) (st : option value) (v : value)
+  : outcome * option value :=
+  match accept_typed b is_list chain v with
+  | Accepted => (Accepted, Some v)
+  | o => (o, st)
+  end.
+
 End WithRegex.
